@@ -252,8 +252,14 @@ def run(ctx):
                 r3.violation("lookup-key", "first look-up key is %r, expected word() of the current split" % (ke,), site_of(lb, bb))
             # R4: suffix fallback only when the whole word has no entry
             later = [(bb2, t2) for (bb2, t2) in lb.calls() if callee_name(t2).endswith("Data::find_suffix")]
+            ob = lb
+            if not later:
+                # the fallback may be written inside combinator closures (`get(word).cloned().or_else(|| (1..len).find_map(..))`): judge it where it runs
+                from . import roles as _roles
+                ob = _roles.ib(prog, lk[0])
+                later = [(bb2, t2) for (bb2, t2) in ob.calls() if callee_name(t2).endswith("Data::find_suffix")]
             r4ok = bool(later) and all(any(d.k == "discr" and contains_call(d, lambda n: n.endswith("::get")) and (pol == "otherwise" or pol == (0,))
-                                           for (d, pol, s) in guards_of(lb, bb2)) for (bb2, t2) in later)
+                                           for (d, pol, s) in guards_of(ob, bb2)) for (bb2, t2) in later)
             if r4ok:
                 r3.ok("lookup-order", "whole word first; base+suffix only when the word has no learned choice of its own")
             else:
